@@ -39,14 +39,14 @@ PROPS = {
         lean=["GolibsVerif.Props.C18"],
         seq=[dict(comp="mixer")],
         rule="cases = (selector, input1, input2, resettable flags, call pattern): all pairs of sequences of length <= 3 (quick) / 4 (thorough) over {1,2,3} x selectors {<,<=,const true,const false,(>=,parity)} x drain patterns; every HasNext/Next/Reset pattern to depth 6/8 on 5 small input pairs; resettable/non-resettable combinations; random inputs up to 40+40 elements; non-trivial = both inputs non-empty with a tie under the selector, or a Reset in mid-stream; distinct = hash of (header, op list)",
-        assumptions=["input iterators honour the Iterator contract; the model's inputs are lists (iterable.WrapIntSlice, optionally with Reset hidden); inputs whose last element vanishes between HasNext and Next are covered by a Go-side shadow run that must answer every call alike"],
+        assumptions=["input iterators honour the Iterator contract; the model's inputs are lists (iterable.WrapIntSlice, optionally with Reset hidden); inputs whose last element vanishes between HasNext and Next are in the model (Src.ghost, C18.vanishing_tail_irrelevant) and in the differential run (vanishing-tail wrappers)"],
         trusted=["modelled, not verified: Go interface dispatch / type assertion to golibs.Reseter"],
         explanation="C18.step_refines lifted to every call pattern (pattern_independent), output_eq_merge, is_interleaving, sorted_merge, reset_restarts; correspondence ties Mixer.Mx to container/iterable/mixer.go",
     ),
     "C15": dict(
         generated=True,
         lean=["GolibsVerif.Props.C15"],
-        seq=[dict(comp="xbin", args=["-focus", "C15"], stateless=True, decisive=lambda d: d["op"].startswith("mon C15"), ignore=lambda d: d["op"].startswith("mon C16") or d["op"].startswith("ub ") or d["op"].startswith("uu ") or d["op"].startswith("uf "))],
+        seq=[dict(comp="xbin", args=["-focus", "C15"], stateless=True, decisive=lambda d: d["op"].startswith("mon C15") or "impl=panic" in d["detail"], ignore=lambda d: d["op"].startswith("mon C16") or d["op"].startswith("ub ") or d["op"].startswith("uu ") or d["op"].startswith("uf "))],
         rule="cases = groups of codec calls: MarshalUint for all 16-bit values, all 2^b-1/2^b/2^b+1 (b<64) with every buffer length 0..size+1, random 64-bit values; fixed widths (all bytes, random 16/32/64-bit, every short buffer); byte strings of lengths 0..40 and around 127/128, 16383/16384 (thorough: 2^21) with destination lengths around the predicted size; ObjectsWriter vs Marshal; random concatenations of 1..8 items decoded back; non-trivial = value/length on a 7-bit group boundary +-1; distinct counted per case group (each group contains thousands of distinct inputs, see op_kinds)",
         assumptions=["decoded-data independence with newBuf=true is checked by the Go-side monitor only (aliasing is not expressible in the value-level model)", "len(v) < 2^63"],
         trusted=["modelled, not verified: encoding/binary.BigEndian, copy(), unsafe string<->[]byte casts in package cast", "Gen.Xbin.writableUintSize is regenerated from xbinary.go by harness/cmd/extract (go/ast if-tree translator)"],
@@ -68,7 +68,7 @@ PROPS = {
         # ExtractObject / FromGRPCError): a different answer IS a failing input
         seq=[dict(comp="errs", stateless=True, decisive=lambda d: True)],
         rule="cases = calls of Is/GRPCStatusCode/GRPCWrap/ExtractObject/FromGRPCError on errors built from recipes: 12 classes x wrap depth 0..3 (thorough 4) x embedded object at every position (or none) x message texts incl. JSON, colons, % verbs, unicode and the marker's neighbours (ESC, 'json', ESC+'jso', 'son'+ESC) x every target class; all 17 codes; status/plain bases outside the hypothesis for model/code agreement; non-trivial = wrap depth >= 1 or an embedded object present; distinct by op text",
-        assumptions=["wrapping texts do not contain the complete embed marker ESC+'json'", "chains are single-%w (linear) chains"],
+        assumptions=["wrapping texts do not contain the complete embed marker ESC+'json'", "error values are trees of single-%w wrappers, embedded objects and binary nodes (two-%w / errors.Join) whose other child is a plain error; wider trees (two classes in one tree) are outside the property"],
         trusted=["modelled, not verified: errors.Is/As, fmt.Errorf %w, grpc status.Code/FromError/Error (v1.55), strings.Split, encoding/json", "class list, both tables and the marker are regenerated from errors.go / grpc.go by harness/cmd/extract"],
         explanation="C19.tables_consistent/keys_nodup/no_unknown_code by `decide` on the REGENERATED tables; is_after_wrap/no other class/order independence/idempotence/extract for every chain and every map order derived from them",
     ),
@@ -116,6 +116,9 @@ PROPS = {
         lean=["GolibsVerif.Props.C12", "GolibsVerif.Props.C13Exec"],
         seq=[dict(comp="tmo", decisive=lambda d: d["op"].startswith("mon C12"))],
         go_cmds=("seq", "conc"),
+        # public API only, real clock: the whole range of time.Duration incl. the "never" sentinel; still builds when
+        # a change of representation breaks the package-internal accessors
+        api=[dict(comp="tmoapi", decisive=lambda d: d["op"].startswith("mon C12"))],
         # the concurrent side (Cancel from other goroutines parked right before the dispatcher's lock while
         # watchers pop): the pool trace harness of C13; what C12 talks about = its timer monitors
         conc=[dict(comp="pool", driver="pooltrace",
@@ -242,6 +245,7 @@ PROPS = {
         seq=[],
         go_cmds=("seq", "conc"),
         conc=[dict(comp="pool", driver="pooltrace", decisive=lambda d: d["op"].startswith("mon C13"))],
+        api=[dict(comp="tmoapi", decisive=lambda d: d["op"].startswith("mon C13") or d["op"].startswith("mon C12-never-early"))],
         rule="cases = executions of the REAL package-level dispatcher under a virtual clock and harness-controlled sleep timers (time.Now / time.NewTimer of the CURRENT timeout.go redirected by the instrumenter), pool limits {1,2,3,10}, idle timeouts {5,20,100} ms: scripts of 4..16 actions from {Call with delay 0/1/3/10/50/500 ms (far and near futures, a near one while the dispatcher sleeps towards a far one), a burst of limit+2 futures due at once, Cancel of a random future (incl. the head), advance time by 1/2/5/11/idle+1/60 ms, let an expired sleep timer fire}; then time is advanced past every fire time and expired timers are served fairly until every live future has started, then idle rounds until the pool has wound down to zero watchers; every locked section of the watcher loop (with watchers / heap length / wake tokens seen under the lock), every sleep with its deadline, every callback start and every exit become trace events replayed by the Lean driver through Tmo.Pool.Exec; non-trivial = an arrival preceded the current head, or a burst; distinct by hash of the event list",
         assumptions=["fair scheduling of runnable goroutines (liveness is proved as 'someone is responsible' + enabledness, not as a temporal formula)", "fire times are pairwise distinct in the trace runs (ties are covered by the C12 heap correspondence)", "callbacks return promptly (a blocked callback occupies its watcher)", "a wake token sent while a watcher is blocked in select is consumed at once (the model allows it to linger: over-approximation)"],
         trusted=["modelled, not verified: Go select / timer / buffered channel semantics, goroutine spawn; the heap is abstracted to 'head = a pending future with the least fire time' (C12.root_is_min)", "C13Exec.handle_sound / replay_reach: every accepted trace is a Tmo.Pool.Step execution"],
